@@ -99,6 +99,16 @@ def run(ctx):
     unbatched = ctx.tlc("GroupChain", cfg="GroupChain_crash_unbatched.cfg", allow_violation=True)
     if not unbatched["error"]:
         raise Inconclusive("negative control: separate store writes with crashes were not refuted by the model")
+    # extension beyond the statement (design level only, never part of the verdict): the sqlite group
+    # index as a mirror of the chain - at rest every group of the chain has a row: holds with one
+    # process death, refuted with two (a stale row and a missing row make the counts agree again)
+    mirror = {}
+    try:
+        m1 = ctx.tlc("GroupIndexMirror", cfg="GroupIndexMirror.cfg", allow_violation=True)
+        m2 = ctx.tlc("GroupIndexMirror", cfg="GroupIndexMirror_two.cfg", allow_violation=True)
+        mirror = {"rows_cover_chain_with_one_death": not m1["error"], "refuted_with_two_deaths": bool(m2["error"])}
+    except Exception as e:   # noqa
+        mirror = {"not_run": str(e)[:200]}
     # 2. TLC-generated call histories (model -> code)
     # (three ids at depth 4 would be 3.2 M histories: the thorough tier takes every history of two ids
     #  at depth 4 - plain, fork-switch and a large sample of the overlapping-call ones - plus every
@@ -225,6 +235,7 @@ def run(ctx):
         "overlapping_call_histories_replayed": min(len(concs), 600 if quick else 25000),
         "samples": samples,
         "design_level_inductive_invariant": proof,
+        "extension_group_index_mirror_model": mirror,
         "action_coverage": ref["coverage"],
         "crash_restart_cycles": ncrash,
         "separate_writes_variant_refuted_in_model": bool(unbatched["error"]),
